@@ -3,6 +3,9 @@
 package main
 
 import (
+	"crypto/rand"
+	"crypto/ed25519"
+	"crypto/ecdsa"
 	"bytes"
 	"crypto"
 	"crypto/rsa"
@@ -326,7 +329,7 @@ func c06Lifetime(c *ev.Ctx, tbs []byte) {
 }
 
 func checkC06(c *ev.Ctx) {
-	c.Rule("the harness owns the device RSA key, so for any target encoded message EM it computes sig = EM^d mod N: device key sizes (quick 1024,2048; thorough +1032,1536,3072,4096) x hash{SHA-1,256,384,512} x identifier form{NULL,no NULL} x every byte position of EM x 7 replacement values; structural variants (shortened/short padding, 00 inside padding, missing separator, shifted T, foreign identifier, wrong digest, block types 00/02, sig+N); single-bit flips of signature and body (quick: 1024-bit key; thorough: 2048 too); every signature-algorithm label 0..16,99,-1 x EM hash; chain relations {pool root (2 roots), foreign CA, self-signed, expired, not yet valid, missing intermediate}; device key types {RSA, P-256, Ed25519}; RSA public exponents {3,5,17,257,65539} (those invertible for the fixture primes) on the 1024-bit modulus (thorough: 2048 too), interleaved with the 65537 cases; one long-lived Attestor used before and after a device certificate's expiry / start of validity (real time, 5.5 s). 192 ordered pairs on one goroutine (6 predecessor kinds incl. non-RSA device keys x 4 hashes x {valid, signed over previous body || body}). Oracle: independent predicate on sig^e mod N. non-trivial = accepted attestation; distinct by (size,label,chain,variant)")
+	c.Rule("the harness owns the device RSA key, so for any target encoded message EM it computes sig = EM^d mod N: device key sizes (quick 1024,2048; thorough +1032,1536,3072,4096) x hash{SHA-1,256,384,512} x identifier form{NULL,no NULL} x every byte position of EM x 7 replacement values; structural variants (shortened/short padding, 00 inside padding, missing separator, shifted T, foreign identifier, wrong digest, block types 00/02, sig+N); single-bit flips of signature and body (quick: 1024-bit key; thorough: 2048 too); every signature-algorithm label 0..16,99,-1 x EM hash; chain relations {pool root (2 roots), foreign CA, self-signed, expired, not yet valid, missing intermediate}; device key types {RSA, P-256, Ed25519} incl. slot certificates that are validly signed by the (CA-flagged) device key with ECDSA, Ed25519 or RSA-PSS; RSA public exponents {3,5,17,257,65539} (those invertible for the fixture primes) on the 1024-bit modulus (thorough: 2048 too), interleaved with the 65537 cases; one long-lived Attestor used before and after a device certificate's expiry / start of validity (real time, 5.5 s). 192 ordered pairs on one goroutine (6 predecessor kinds incl. non-RSA device keys x 4 hashes x {valid, signed over previous body || body}). Oracle: independent predicate on sig^e mod N. non-trivial = accepted attestation; distinct by (size,label,chain,variant)")
 	c.Assume("crypto/x509 chain building is trusted", "modular exponentiation by math/big")
 	t0 := time.Now()
 	c06W = c06Build()
@@ -497,6 +500,34 @@ func checkC06(c *ev.Ctx) {
 		for _, l := range []x509.SignatureAlgorithm{x509.SHA256WithRSA, x509.ECDSAWithSHA256, x509.PureEd25519} {
 			for _, ch := range []string{"root", "otherca"} {
 				cases = append(cases, c06Case{KeyType: kt, Chain: ch, Label: int(l), TBS: tbsHex, Sig: sigAny, Note: "non-rsa-device-key"})
+			}
+		}
+	}
+	// slot certificates that ARE correctly signed by the device key, but not with RSA PKCS#1 v1.5: ECDSA and Ed25519 device
+	// keys (the device certificates are CA-flagged, so a general X.509 verifier would accept these), and RSA-PSS
+	{
+		d256 := sha256.Sum256(tbs)
+		d384 := sha512.Sum384(tbs)
+		if sig, err := ecdsa.SignASN1(rand.Reader, fix.EC(256), d256[:]); err == nil {
+			cases = append(cases, c06Case{KeyType: "p256", Chain: "root", Label: int(x509.ECDSAWithSHA256), TBS: tbsHex, Sig: hex.EncodeToString(sig), Note: "valid ECDSA signature by a P-256 device key"})
+			cases = append(cases, c06Case{KeyType: "p256", Chain: "root", Label: int(x509.SHA256WithRSA), TBS: tbsHex, Sig: hex.EncodeToString(sig), Note: "valid ECDSA signature labelled sha256WithRSA"})
+		}
+		if sig, err := ecdsa.SignASN1(rand.Reader, fix.EC(256), d384[:]); err == nil {
+			cases = append(cases, c06Case{KeyType: "p256", Chain: "root", Label: int(x509.ECDSAWithSHA384), TBS: tbsHex, Sig: hex.EncodeToString(sig), Note: "valid ECDSA/SHA-384 signature by a P-256 device key"})
+		}
+		cases = append(cases, c06Case{KeyType: "ed25519", Chain: "root", Label: int(x509.PureEd25519), TBS: tbsHex, Sig: hex.EncodeToString(ed25519.Sign(fix.Ed(0), tbs)), Note: "valid Ed25519 signature by an Ed25519 device key"})
+		for _, bits := range []int{1024, 2048} {
+			for _, hl := range []struct {
+				h crypto.Hash
+				l x509.SignatureAlgorithm
+			}{{crypto.SHA256, x509.SHA256WithRSAPSS}, {crypto.SHA384, x509.SHA384WithRSAPSS}, {crypto.SHA512, x509.SHA512WithRSAPSS}} {
+				if bits == 1024 && hl.h == crypto.SHA512 {
+					continue // salt + hash do not fit
+				}
+				if sig, err := rsa.SignPSS(rand.Reader, fix.RSA(bits), hl.h, c06Digest(hl.h, tbs), &rsa.PSSOptions{SaltLength: rsa.PSSSaltLengthEqualsHash}); err == nil {
+					cases = append(cases, c06Case{Bits: bits, Chain: "root", Label: int(hl.l), TBS: tbsHex, Sig: hex.EncodeToString(sig), Note: "valid RSA-PSS signature by the device key"})
+					cases = append(cases, c06Case{Bits: bits, Chain: "root2", Label: int(labelOf[hl.h]), TBS: tbsHex, Sig: hex.EncodeToString(sig), Note: "valid RSA-PSS signature labelled PKCS#1 v1.5"})
+				}
 			}
 		}
 	}
